@@ -245,6 +245,26 @@ static const char *S_ODE = PROLOG
 
 static const char GARBAGE[] = "\x7f" "ELF\x02\x01\x01<<>>&&;\xff\xfe\x00\x01model name=\"]]>";
 
+// powers and roots of a non-dimensionless quantity whose exponent / degree is a variable: the analyser evaluates the
+// exponent (initial values, cn text) to work out the units
+static const char *S_POWER = PROLOG
+    "<model xmlns=\"" NS20 "\" name=\"pw\">\n"
+    "  <units name=\"m2\"><unit units=\"metre\" exponent=\"2\"/></units>\n"
+    "  <component name=\"c\">\n"
+    "    <variable name=\"x\" units=\"metre\" initial_value=\"3\"/>\n"
+    "    <variable name=\"n\" units=\"dimensionless\" initial_value=\"2\"/>\n"
+    "    <variable name=\"k\" units=\"dimensionless\" initial_value=\"2\"/>\n"
+    "    <variable name=\"y\" units=\"m2\"/>\n"
+    "    <variable name=\"z\" units=\"metre\"/>\n"
+    "    <variable name=\"w\" units=\"m2\"/>\n"
+    "    " MATHOPEN "\n"
+    "      <apply><eq/><ci>y</ci><apply><power/><ci>x</ci><ci>n</ci></apply></apply>\n"
+    "      <apply><eq/><ci>z</ci><apply><root/><degree><ci>k</ci></degree><ci>y</ci></apply></apply>\n"
+    "      <apply><eq/><ci>w</ci><apply><power/><ci>x</ci><cn cellml:units=\"dimensionless\">2</cn></apply></apply>\n"
+    "    </math>\n"
+    "  </component>\n"
+    "</model>\n";
+
 // ---------------------------------------------------------------- MathML vocabulary
 inline const std::vector<std::string> &vocabulary()
 {
@@ -339,6 +359,7 @@ inline const std::vector<Seed> &seeds()
         { auto &x = add("resets", {{"main.xml", S_RESET}}); x.math = true; x.analysable = true; }
         { auto &x = add("ode", {{"main.xml", S_ODE}}); x.math = true; x.analysable = true; }
         { auto &x = add("allmath", {{"main.xml", allMathSeed()}}); x.math = true; x.analysable = true; }
+        { auto &x = add("power-units", {{"main.xml", S_POWER}}); x.math = true; x.analysable = true; }
         { auto &x = add("cellml10-math", {{"main.xml", S_OLD10_MATH}}); x.math = true; x.legacy = true; x.analysable = true; }
         { auto &x = add("math-small", {{"main.xml", mathDoc("<apply><eq/><ci>y</ci><apply><plus/><ci>x</ci><cn cellml:units=\"dimensionless\">1</cn></apply></apply>"
                                                                "<apply><eq/><ci>x</ci><cn cellml:units=\"dimensionless\" type=\"e-notation\">2<sep/>3</cn></apply>", "xy")}});
